@@ -152,9 +152,31 @@ def _enc_tuple(e):
     return int(e[0]), [int(x) for x in np.asarray(e[1]).reshape(-1)], int(e[2])
 
 
-def job_strings(L):
+def degree_input(ctx, name, n):
+    """a symbolic scale degree of n characters: accidentals (all b or all #) followed by 1..13"""
+    v = z3.String(name)
+    ctx.inputs[name] = v
+    ctx.add(z3.Length(v) == n)
+    acc = z3.Union(z3.Star(z3.Re("b")), z3.Star(z3.Re("#")))
+    num = z3.Union(z3.Range("1", "9"), z3.Concat(z3.Re("1"), z3.Range("0", "3")))
+    ctx.add(z3.InRe(v, z3.Concat(acc, num)))
+    return ST.SymStr(v, n)
+
+
+def job_template(prefix, star, n1, n2):
+    """grammar-derived labels deeper than the free-string bound: <prefix>( [*]<degree of n1 chars> )/<bass degree of n2 chars>"""
     def build(ctx):
-        return dict(s=ST.string_input(ctx, 's', L))
+        d1 = degree_input(ctx, 'deg', n1)
+        d2 = degree_input(ctx, 'bass', n2)
+        return dict(s=prefix + "(" + ("*" if star else "") + d1 + ")/" + d2)
+    j = job_strings(None, build=build, name='template[%s(%s<deg:%d>)/<bass:%d>]' % (prefix, '*' if star else '', n1, n2))
+    return j
+
+
+def job_strings(L, build=None, name=None):
+    if build is None:
+        def build(ctx):
+            return dict(s=ST.string_input(ctx, 's', L))
 
     def patches():
         return {'chord': {'CHORD_RE': ST.SymPattern(CH.CHORD_RE), 'str': ST.sym_str,
@@ -182,7 +204,7 @@ def job_strings(L):
                 if st_e == 'ok':
                     r, bm, b = _enc_tuple(e)
                     sentinel = (r, bm, b) in ((-1, [0] * 12, -1), (-1, [-1] * 12, -1))
-                    inv = 0 <= r <= 11 and 0 <= b <= 11 and len(bm) == 12 and set(bm) <= {0, 1} and bm[0] == 1 and bm[b] == 1
+                    inv = 0 <= r <= 11 and 0 <= b <= 11 and len(bm) == 12 and set(bm) <= {0, 1} and bm[b] == 1
                     A.require(sentinel or inv, 'encode:root,bitmap,bass-invariant', got=(r, bm, b))
         A.observe('accepted', accepted)
         A.observe('encodable', encs[(False, False)][0] == 'ok')
@@ -224,10 +246,10 @@ def job_strings(L):
         A.require((st_m == 'ok') == (st0 == 'ok'), 'encode_many:same-acceptance-as-encode')
         if st_m == 'ok' and st0 == 'ok':
             A.require((int(em[0][0]), [int(x) for x in em[1][0]], int(em[2][0])) == _enc_tuple(e0), 'encode_many:same-encoding-as-encode')
-    j = Job('C10', 'strings[length=%d]' % L, build, body, funcs=['chord.validate_chord_label', 'chord.split', 'chord.join', 'chord.encode',
+    j = Job('C10', name or 'strings[length=%d]' % L, build, body, funcs=['chord.validate_chord_label', 'chord.split', 'chord.join', 'chord.encode',
                                                                      'chord.encode_many', 'chord.pitch_class_to_semitone', 'chord.scale_degree_to_semitone',
                                                                      'chord.scale_degree_to_bitmap', 'chord.quality_to_bitmap', 'chord.reduce_extended_quality'],
-            bounds=dict(length=L, alphabet='code points 9..126'), lattice=0, timeout_s=3000, max_decisions=100000, exc_policy='body')
+            bounds=dict(length=L, alphabet='code points 9..126') if L is not None else dict(template=name), lattice=0, timeout_s=3000, max_decisions=100000, exc_policy='body')
     j.extra_patches = patches()
     return j
 
@@ -265,4 +287,8 @@ def jobs(tier):
     js = [job_language(), job_pool()]
     for L in ((0, 1, 2, 3) if q else (0, 1, 2, 3, 4, 5)):
         js.append(job_strings(L))
+    tmpl = [('C:maj', True, 1, 1), ('G#:', True, 1, 1), ('A:min7', False, 2, 1)] if q else \
+           [(p, st, a, b) for p in ('C:maj', 'G#:', 'A:min7', 'Eb:sus4', 'D:1', 'F:9', 'B:hdim7') for st in (True, False) for (a, b) in ((1, 1), (2, 1), (1, 2), (2, 2))]
+    for t in tmpl:
+        js.append(job_template(*t))
     return js
